@@ -25,3 +25,4 @@ def run(ctx):
     S.r45_clobber(ctx, sc)
     S.r46_optional_worker(ctx, sc)
     S.r47_termination(ctx, sc)
+    S.wakeup_last(ctx, sc, 'R4.8')
